@@ -123,7 +123,12 @@ class Gen(object):
         kinds.append(rk)
         for i in range(1, n):
             if self.cfg.__dict__.get("only_sync"):
-                kinds.append("sync")
+                if self.cfg.__dict__.get("drive"):
+                    # thread worlds: coroutines / generators driven to completion by a plain loop in
+                    # their (synchronous) caller, so their frames run on the thread's stack
+                    kinds.append(("sync", "coro", "gen")[t.weighted([4, 2, 1])])
+                else:
+                    kinds.append("sync")
             else:
                 kinds.append(("coro", "sync", "gen", "agen", "gbcoro")[t.weighted([4, 3, 2, 2, 1])])
         self.kinds = kinds
@@ -379,6 +384,8 @@ class Gen(object):
                 compat.append(g)
             elif fn.kind == "sync" and g.kind == "sync":
                 compat.append(g)
+            elif fn.kind == "sync" and g.kind in ("coro", "gen") and self.cfg.__dict__.get("drive"):
+                compat.append(g)
         if self.on("recurse") and fn.kind in ("coro", "agen", "gen", "gbcoro", "sync") and t.choose(3) == 0:
             self.emit(fn, ind, "if W.rbudget(%d):" % (1 + t.choose(3)))
             ind += 1
@@ -392,6 +399,8 @@ class Gen(object):
         fn.calls.append(g.name)
         if g.kind == "sync":
             self.emit(fn, ind, "W.at(F, %d); %s(W)" % (sid, g.name))
+        elif fn.kind == "sync":
+            self.emit(fn, ind, "W.at(F, %d); W.drive(F, %d, %s(W))" % (sid, sid, g.name))
         elif fn.kind in ("coro", "agen"):
             if g.kind == "agen":
                 self.emit(fn, ind, "async for a%d in W.link(F, %d, %s(W)):" % (depth, sid, g.name))
